@@ -82,7 +82,9 @@ def cond_params(c, Rc, Dy, Dx):
         M = nf.expand_dims(nf.eye(Dy), [None])
         b = None
     else:
-        M, b = c.f["M"], c.f["b"]
+        # the parameters the USER passed (a constructor that overwrites them - `if self.b is not None: self.b = zeros` - must not be able
+        # to hide behind a reference that reads the object's own fields; found by the mutation sweep)
+        M, b = g.get("M", c.f["M"]), g.get("b", c.f["b"])
     return M, b, S, L, lds
 
 
